@@ -158,12 +158,14 @@ func (ex *Exec) callExternal(fr *Frame, name string, sig *types.Signature, recv 
 		ex.nopanic(st, "store-set-nil", Neq(v, BNil), posOfCall(call))
 		w := st.worlds[s.World]
 		w.S = Store(w.S, k, v)
+		ex.recordWrite(s.World, k)
 		return one(nil)
 	case strings.HasSuffix(short, "KVStore).Delete") || strings.HasSuffix(short, "(prefix.Store).Delete"):
 		s := recv.(*StoreV)
 		k := ex.storeKey(st, s, args[0])
 		w := st.worlds[s.World]
 		w.S = Store(w.S, k, BNil)
+		ex.recordWrite(s.World, k)
 		return one(nil)
 	case short == "types.KVStorePrefixIterator":
 		s := args[0].(*StoreV)
@@ -183,6 +185,11 @@ func (ex *Exec) callExternal(fr *Frame, name string, sig *types.Signature, recv 
 			hi = ex.storeKey(st, s, args[1])
 		}
 		return one(ex.newIterator(st, s, nil, lo, hi, strings.HasSuffix(short, "ReverseIterator")))
+	case short == "types.InclusiveEndBytes":
+		return one(Cat(ex.asBytes(st, args[0]), Lit("\x00")))
+	case short == "types.PrefixEndBytes":
+		DeclareUF("prefix_end", []*Sort{SBytes}, SBytes)
+		return one(App("prefix_end", ex.asBytes(st, args[0])))
 	case short == "prefix.NewStore":
 		s := args[0].(*StoreV)
 		p := ex.asBytes(st, args[1])
@@ -427,7 +434,7 @@ func (ex *Exec) newIterator(st *State, s *StoreV, prefix, lo, hi *Term, reverse 
 	st.AssumeDef(Ge(n, IntLit(0)))
 	ki := App(keyAt, i)
 	st.AssumeDef(Forall([]*Term{i}, Implies(And(Le(IntLit(0), i), Lt(i, n)),
-		And(inRange(ki), Neq(Select(S, ki), BNil), Eq(App(idxOf, ki), i))), []*Term{ki}))
+		And(inRange(ki), Neq(Select(S, ki), BNil), Eq(App(idxOf, ki), i), Ge(App("blen", ki), IntLit(1)))), []*Term{ki}))
 	st.AssumeDef(Forall([]*Term{k}, Implies(And(inRange(k), Neq(Select(S, k), BNil)),
 		And(Le(IntLit(0), App(idxOf, k)), Lt(App(idxOf, k), n), Eq(App(keyAt, App(idxOf, k)), k))), []*Term{App(idxOf, k)}, []*Term{Select(S, k)}))
 	// order
@@ -437,6 +444,12 @@ func (ex *Exec) newIterator(st *State, s *StoreV, prefix, lo, hi *Term, reverse 
 		ord = App("key_lt", kj, ki)
 	}
 	st.AssumeDef(Forall([]*Term{i, j}, Implies(And(Le(IntLit(0), i), Lt(i, j), Lt(j, n)), ord), []*Term{ki, kj}))
+	if prefix != nil {
+		ex.iterPrefix[keyAt] = prefix
+	} else if lo != nil && hi != nil && Fam(lo).Op == "int" && Fam(lo) == Fam(hi) {
+		// a range inside one family (lexicographic order): every key in it has that first byte
+		ex.iterPrefix[keyAt] = lo
+	}
 	o := st.NewObj("iter", nil, IntLit(0))
 	return &IterV{Obj: o, It: &IterInfo{Store: S, N: n, KeyAt: keyAt, IdxOf: idxOf, Prefix: prefix, Start: lo, End: hi, Reverse: reverse}}
 }
